@@ -25,9 +25,83 @@ package net
 //@   on-send inMsgs(v):
 //@     assert [attributed-after-auth] authenticationSucceeded && v.From == from && v.Domain == domain
 
+// ---- framing (C17): the connection is a ghost byte stream per direction (array of bytes and a cursor) ----------------------
+// frame = type (1 byte), little-endian length of the payload (4 bytes), topic (32 bytes iff the type carries a topic), payload
+
+//@ spec macro hasTopic(t MsgType) bool = t == MsgTypeMPC || t == MsgTypeDiscovery
+
 //@ func readMsg
 //@   props C10 C17
 //@   requires conn != nil
+//@   // the table is initialised by the package and never written afterwards
+//@   requires [table] shouldHaveTopic != nil && forall t MsgType :: { dom(shouldHaveTopic, t) } (t in shouldHaveTopic && shouldHaveTopic[t]) == hasTopic(t)
+//@   modifies heap:L!wire!inpos
+//@   ensures [type]     result.3 == nil ==> uint8(result.0) == inAt(conn, old(inPos(conn)))
+//@   ensures [length]   result.3 == nil ==> len(result.2) <= maxBuffLen && len(result.2) == int(inAt(conn, old(inPos(conn))+1)) + 256*int(inAt(conn, old(inPos(conn))+2)) +
+//@                                            65536*int(inAt(conn, old(inPos(conn))+3)) + 16777216*int(inAt(conn, old(inPos(conn))+4))
+//@   ensures [topic]    result.3 == nil ==> (hasTopic(result.0) ==> len(result.1) == 32) && (!hasTopic(result.0) ==> len(result.1) == 0) &&
+//@                                          forall k int :: { result.1[k] } 0 <= k && k < len(result.1) ==> result.1[k] == inAt(conn, old(inPos(conn))+5+k)
+//@   ensures [payload]  result.3 == nil ==> forall k int :: { result.2[k] } 0 <= k && k < len(result.2) ==> result.2[k] == inAt(conn, old(inPos(conn))+5+len(result.1)+k)
+//@   ensures [consumed] result.3 == nil ==> inPos(conn) == old(inPos(conn)) + 5 + len(result.1) + len(result.2)
+//@   // a frame announcing more than the limit is refused (and nothing of that size is allocated: make-size obligations)
+//@   ensures [limit]    int(inAt(conn, old(inPos(conn))+1)) + 256*int(inAt(conn, old(inPos(conn))+2)) + 65536*int(inAt(conn, old(inPos(conn))+3)) + 16777216*int(inAt(conn, old(inPos(conn))+4)) > maxBuffLen ==> result.3 != nil
+//@
+//@ func (*remoteParty).send
+//@   props C10 C17
+//@   requires msg != nil && rp.conn != nil && rp.reportErr != nil
+//@   requires [legal-topic] len(msg.topic) == 0 || len(msg.topic) == 32
+//@   requires [fits]        len(msg.data) <= 4294967295
+//@   modifies rp.conn, heap:L!wire!outarr, heap:L!wire!outpos
+//@   // when both writes succeed (the connection is kept), exactly one frame was appended to the outgoing stream
+//@   ensures [appended] rp.conn != nil ==> rp.conn == old(rp.conn) && outPos(rp.conn) == old(outPos(rp.conn)) + 5 + len(msg.topic) + len(msg.data)
+//@   ensures [earlier]  rp.conn != nil ==> forall i int :: 0 <= i && i < old(outPos(rp.conn)) ==> outAt(rp.conn, i) == old(outAt(rp.conn, i))
+//@   ensures [type]     rp.conn != nil ==> outAt(rp.conn, old(outPos(rp.conn))) == uint8(msg.msgType)
+//@   ensures [length]   rp.conn != nil ==> len(msg.data) == int(outAt(rp.conn, old(outPos(rp.conn))+1)) + 256*int(outAt(rp.conn, old(outPos(rp.conn))+2)) +
+//@                                           65536*int(outAt(rp.conn, old(outPos(rp.conn))+3)) + 16777216*int(outAt(rp.conn, old(outPos(rp.conn))+4))
+//@   ensures [topic]    rp.conn != nil ==> forall j int :: { outAt(rp.conn, j) } old(outPos(rp.conn))+5 <= j && j < old(outPos(rp.conn))+5+len(msg.topic) ==>
+//@                                           outAt(rp.conn, j) == msg.topic[j - old(outPos(rp.conn)) - 5]
+//@   ensures [payload]  rp.conn != nil ==> forall j int :: { outAt(rp.conn, j) } old(outPos(rp.conn))+5+len(msg.topic) <= j && j < old(outPos(rp.conn))+5+len(msg.topic)+len(msg.data) ==>
+//@                                           outAt(rp.conn, j) == msg.data[j - old(outPos(rp.conn)) - 5 - len(msg.topic)]
+//@
+//@ // Round trip (C17): what send appends to the sender's stream, readMsg on a stream that delivers those bytes returns as the
+//@ // same (type, topic, payload), consuming exactly that frame (so the next readMsg starts at the next frame: by induction,
+//@ // a sequence of sends is received in order, each message once, unmodified). Hypotheses: a legal type/topic combination,
+//@ // a payload within the limit, both writes succeed, the transport (TLS) delivers the bytes written, in order.
+//@ lemma frameRoundTrip(rp *remoteParty, msg *outMsg, conn net.Conn)
+//@   props C17
+//@   requires rp != nil && msg != nil && rp.conn != nil && rp.reportErr != nil && conn != nil
+//@   requires [legal]  (hasTopic(msg.msgType) && len(msg.topic) == 32) || (!hasTopic(msg.msgType) && len(msg.topic) == 0)
+//@   requires [limit]  len(msg.data) <= maxBuffLen
+//@   requires [table]  shouldHaveTopic != nil && forall t MsgType :: { dom(shouldHaveTopic, t) } (t in shouldHaveTopic && shouldHaveTopic[t]) == hasTopic(t)
+//@   let _ = (*remoteParty).send(rp, msg)
+//@   suppose [written]   rp.conn != nil
+//@   suppose [transport] forall j int :: { inAt(conn, j) } inPos(conn) <= j && j < inPos(conn) + 5 + len(msg.topic) + len(msg.data) ==>
+//@                         inAt(conn, j) == outAt(rp.conn, j - inPos(conn) + outPos(rp.conn) - (5 + len(msg.topic) + len(msg.data)))
+//@   let t, topic, data, err = readMsg(conn)
+//@   // (the reads themselves may fail: I/O; when they succeed the frame is the one sent, and a frame within the limit is not refused for its size)
+//@   assert [type]     err == nil ==> t == msg.msgType
+//@   assert [topic]    err == nil ==> len(topic) == len(msg.topic) && forall k int :: 0 <= k && k < len(topic) ==> topic[k] == msg.topic[k]
+//@   assert [payload]  err == nil ==> len(data) == len(msg.data) && forall k int :: 0 <= k && k < len(data) ==> data[k] == msg.data[k]
+//@   assert [consumed] err == nil ==> inPos(conn) == old(inPos(conn)) + 5 + len(msg.topic) + len(msg.data)
+//@
+// ---- a slow, unreachable or failing peer does not make the process panic (C17) ------------------------------------------
+
+//@ // precondition: every destination is a registered party (a programming error otherwise: the function panics)
+//@ func (SocketRemoteParties).Send
+//@   props C10 C17
+//@   requires parties != nil
+//@   requires [registered] forall i int :: { to[i] } 0 <= i && i < len(to) ==> int(to[i]) in parties && parties[int(to[i])] != nil &&
+//@                           parties[int(to[i])].msgs != nil && parties[int(to[i])].reportErr != nil
+//@
+//@ // what happens when the destination's queue stays full: the message is dropped after reporting; the process goes on
+//@ func (SocketRemoteParties).Send$1
+//@   props C10 C17
+//@   requires-captured p != nil && p.reportErr != nil
+//@
+//@ func (outChan).enqueue
+//@   props C10 C17
+//@   requires onFailure != nil
+//@   modifies nothing
 //@
 //@ func (*Handshake).Read
 //@   props C10 C16
